@@ -2,3 +2,6 @@ import JaqalProofs.Props.C15
 import JaqalProofs.Props.C03
 import JaqalProofs.Props.C01Literals
 import JaqalProofs.Props.C19
+import JaqalProofs.Props.C12
+import JaqalProofs.Props.C08
+import JaqalProofs.Lemmas.WalkSerialize
